@@ -76,7 +76,7 @@ CONFIG = {
         "rule": "the label of every legal move at every node, compared with the model's label, which the runner verifies against SanSpec (FIDE/PGN rule) and for pairwise distinctness",
     },
     "C16": {
-        "ignore_ops": ("new",), "spec_tags": ("snap", "verdict"), "sample_tags": ("snap",),
+        "ignore_ops": ("new",), "spec_tags": ("snap", "verdict", "watch"), "sample_tags": ("snap",),
         "snap_fields": ("half", "full"),
         "rule": "both counters after every ply of long reference-tracked games (the rules' successor tracks plies since the last capture or pawn move) and the game-ending verdict around the thresholds",
     },
@@ -96,7 +96,7 @@ CONFIG = {
                 "when the rules say so) and the full board snapshot (64 squares, clocks, key, stacks, 15 bitboards) must be identical before and after; distinct = distinct (position, depth, answer)",
     },
     "C08": {
-        "ignore_ops": ("pos", "sctx", "apply", "toggle", "undo"), "spec_tags": ("search",), "sample_tags": ("search",),
+        "ignore_ops": ("pos", "sctx", "apply", "toggle", "undo"), "spec_tags": ("search", "watch"), "sample_tags": ("search",),
         "search_mode": "exact",
         "rule": "(last_score, move) of alpha_beta_search vs a pruning-free, cache-free minimax computed by the extracted model (score equal; the move must be one whose own "
                 "minimax value equals it), depths 1..3, fresh contexts and one context reused along the successive searches of a game",
@@ -197,6 +197,8 @@ def scenarios(pid, tier, seed):
     if pid == "C16":
         return [
             {"args": ["scen", "family=walk", "count=%d" % (32 if q else 320), "len=%d" % (300 if q else 600), "ops=snap,verdict", S], "shards": 16},
+            # the half-move clock the real watch loop shows after every move
+            {"args": ["scen", "family=watch", "games=%d" % (2 if q else 16), "limit=%d" % (30 if q else 120), S], "shards": 2},
         ]
     if pid == "C18":
         return [
@@ -227,6 +229,8 @@ def scenarios(pid, tier, seed):
             # search.  Decided by the harness against a plain minimax over the engine's own generator and leaf score
             # (the extracted model needs ~25 s per depth-5 position; it is the oracle of the thorough tier's sample below)
             {"args": ["scen", "family=searches", "depths=5", "pools=1,4", "selfmm=1", "maxpieces=4", "walkpos=%d" % (400 if q else 4000), "game=%d" % (0 if q else 3), S], "shards": 16},
+            # the score the real watch loop shows for every searched move
+            {"args": ["scen", "family=watch", "games=%d" % (2 if q else 16), "limit=%d" % (16 if q else 60), S], "shards": 2},
             # depth 6 in mating nets (lone king v two heavy pieces): forced mates of different lengths inside the horizon
             {"args": ["scen", "family=searches", "depths=6", "pools=1,4", "selfmm=1", "nets=%d" % (32 if q else 400), "walkpos=0", S], "shards": 16},
         ] + ([] if q else [
